@@ -52,6 +52,7 @@ CONSTANTS VarInputs,    \* tuple of sets of [shape, k, nc, cov]
           FixedInputs,  \* tuple of sets of [k, n, base]
           ChainLen,     \* number of shifts in a monotonicity chain
           ShiftSteps,   \* set of positive shift increments
+          DoPerm,       \* BOOLEAN: explore PermuteModels (switched off for the widest matrix grid)
           EmitMod       \* emit one terminal state in EmitMod (1 = all)
 
 VARIABLES inp, stage, raw, out, prm
@@ -246,7 +247,7 @@ Init ==
 Contrast == /\ stage = "in" /\ stage' = "raw" /\ raw' = RawStage(inp) /\ UNCHANGED <<inp, out, prm>>
 Finish   == /\ stage = "raw" /\ stage' = "done" /\ out' = OutStage(raw, inp) /\ UNCHANGED <<inp, raw, prm>>
 PermuteModels ==
-  /\ stage = "done" /\ (inp.kind = "fixed" => inp.hist = <<>>)
+  /\ DoPerm /\ stage = "done" /\ (inp.kind = "fixed" => inp.hist = <<>>)
   /\ \E p \in Perms(inp.k) \ {IdPerm(inp.k)} :
         /\ prm' = p /\ inp' = PermInp(inp, p)
         /\ raw' = RawStage(inp') /\ out' = OutStage(raw', inp') /\ stage' = "perm"
@@ -313,7 +314,10 @@ ShiftKeepsVar ==
 
 (* ---------------- emission of test vectors (S -> I) -------------------------- *)
 Terminal == stage = "done" /\ (inp.kind = "fixed" => Len(inp.hist) = ChainLen)
-Emit == (Terminal /\ (EmitMod = 1 \/ RandomElement(1..EmitMod) = 1)) =>
-          PrintT(ToJson([inp |-> inp, exp |-> out,
-                         psd |-> IF inp.kind = "var" THEN PsdInput(inp) ELSE TRUE]))
+Emit == /\ (Terminal /\ (EmitMod = 1 \/ RandomElement(1..EmitMod) = 1)) =>
+             PrintT(ToJson([inp |-> inp, exp |-> out,
+                            psd |-> IF inp.kind = "var" THEN PsdInput(inp) ELSE TRUE]))
+        \* witnesses that PermuteModels / PermEquivariant were exercised (counted by the harness)
+        /\ (stage = "perm" /\ (inp.kind = "var" => inp.nr = 0 /\ inp.np = 0)) =>
+             PrintT(ToJson([permuted |-> prm, kind |-> inp.kind]))
 =============================================================================
